@@ -16,7 +16,9 @@ EPS = 1 << (S - 26)         # __eps = sqrt(finfo(float64).eps) = 2^-26, scaled
 RULE = ("sparse n x n problems, n from a skewed distribution 1..12 (thorough ..40): a hidden permutation (so a perfect "
         "matching exists and every row/column is mentioned) plus extras: dense, banded, Bernoulli p in {.1,.3,.6}, "
         "one-candidate rows, rows with pairwise different candidate sets, star/ladder; costs from {0..2} (ties), {0..9}, "
-        "{0..10^6}, dyadic k/2^8, fine grid {0..2}+k*2^-30 (exercises the eps band, F6); augmenting_row_reductions 0..3; "
+        "{0..10^6}, dyadic k/2^8, fine grid {0..2}+k*2^-30 (exercises the eps band, F6); forced expensive pairs: unique / forced "
+        "perfect matchings through pairs of cost B in 1e1..1e9 against {1,2}, displacement chains, k = 0 emphasised, run in a "
+        "forked child so that a crash or hang of the implementation is an outcome of the case (F20); augmenting_row_reductions 0..3; "
         "triple order shuffled. All data dyadic so float arithmetic is exact and (x,y,u,v) is compared bit for bit with "
         "the (AsIs, 2^-26) Gallina model. Tracker: random pairs of label images and identical frames with pairwise "
         "distinct (centroid, area). non-trivial = n >= 2 and some row has >= 2 candidates (tracker: >= 2 objects in a frame); "
@@ -124,6 +126,33 @@ def _lap_case(rng, n, pat, kind, k):
     return c
 
 
+def _forced_case(rng):
+    n = int(rng.randint(3, 9))
+    perm = rng.permutation(n)
+    order = rng.permutation(n)                       # rows in the order in which the matching is forced
+    pairs = {}
+    Bv = int(rng.choice([10, 14, 20, 50, 100, 1000, 10 ** 4, 10 ** 6, 10 ** 9]))
+    pB = float(rng.choice([0.3, 0.6, 1.0]))
+    chain = rng.rand() < 0.85         # displacement chain: every row prefers (cheaply) the column forced by the previous row
+    for pos, r in enumerate(order):
+        r = int(r)
+        pairs[(r, int(perm[r]))] = Bv if rng.rand() < (0.85 if chain and pos < n - 1 else pB) else int(rng.randint(1, 3))
+        # extra cheap candidates only on columns forced earlier: the perfect matching stays unique
+        for qpos, q in enumerate(order[:pos]):
+            pq = (0.9 if qpos == pos - 1 else 0.1) if chain else 0.35
+            if rng.rand() < pq:
+                pairs[(r, int(perm[int(q)]))] = int(rng.randint(1, 3))
+    if rng.rand() < 0.3:                              # a few free extras: forced but no longer unique
+        for _ in range(int(rng.randint(1, 3))):
+            pairs.setdefault((int(rng.randint(n)), int(rng.randint(n))), int(rng.randint(1, 3)))
+    tri = [[a, b, c << S] for (a, b), c in pairs.items()]
+    tri = [tri[t] for t in rng.permutation(len(tri))]
+    k = 0 if rng.rand() < 0.7 else int(rng.randint(1, 4))
+    c = {"fn": "lap", "n": n, "k": k, "tri": tri, "pat": "forced-expensive", "kind": "contrast-B",
+         "cdt": ["f8", "i8", "list"][int(rng.randint(3))], "idt": ["i8", "i4", "list"][int(rng.randint(3))], "lay": "c"}
+    return c
+
+
 def _corpus_cases():
     cases = []
     p = os.path.join(VERIF, "corpus", "C01")
@@ -162,6 +191,10 @@ def generate(ctx):
     # dense fine-grid stream: the class where the eps band (F6) shows
     for _ in range(ctx.n(300, 3000)):
         cases.append(_lap_case(rng, int(rng.randint(2, 6)), "dense", "fine", int(rng.randint(0, 4))))
+    # forced expensive pairs (finding F20): has_PM instances with one-candidate rows / columns whose unique or forced
+    # perfect matching must use pairs of cost B >= sum of the other costs; contrasts {1, 2, B}, B over 1e1 .. 1e9; k = 0 emphasised
+    for _ in range(ctx.n(800, 8000)):
+        cases.append(_forced_case(rng))
     # large instances (thorough: n up to 200, beyond any small internal buffer) with structured sparse patterns
     for _ in range(ctx.n(6, 60)):
         n = int(rng.randint(ctx.n(30, 60), ctx.n(61, 201)))
@@ -186,11 +219,21 @@ def generate(ctx):
         for c in blk:
             c["seq"] = 1
         cases.extend(blk)
-    # the model's `while` loops run on fuel: a price war in augmenting row reduction (reduced-cost gaps just
-    # above eps, next candidate far away) needs ~range/gap iterations; such inputs are excluded here, counted
+    # Cases on which the faithful model gives no result: (a) augment's sentinel inf = sum(c) + 1 is too small (finding F20:
+    # a rebuild of scan is empty; the real code then reads p_scan[low] past `up`) - recognised by the same model with a true
+    # infinity returning a result; these cases are KEPT and flagged; (b) a price war in augmenting row reduction longer than
+    # the model's fuel - excluded, counted.
     keep = []
-    for c, m in zip(cases, ctx.run_model("entry_lapjv", [_lap_arg(c) for c in cases])):
-        if isinstance(m, dict) or m == []:
+    ms = ctx.run_model("entry_lapjv", [_lap_arg(c) for c in cases])
+    nores = [k for k, m in enumerate(ms) if isinstance(m, dict) or m == []]
+    refs = ctx.run_model("entry_lapjv", [_lap_arg(cases[k], tinf=1) for k in nores]) if nores else []
+    sentinel = set(k for k, m in zip(nores, refs) if not (isinstance(m, dict) or m == []))
+    for k, c in enumerate(cases):
+        if k in sentinel:
+            c["f20"] = 1
+            ctx.count("lap:sentinel-inf-too-small(F20 class)")
+            keep.append(c)
+        elif k in nores:
             ctx.count("excluded:model-out-of-fuel(ARR price war)")
         else:
             keep.append(c)
@@ -402,7 +445,52 @@ def _hand2(img, dt, lay):
     return a
 
 
+def _forked(case, limit=8):
+    """run _impl_lap in a forked child: a crash (signal) or a hang of the implementation is reported as an outcome of
+    this case instead of killing / stalling the worker (finding F20: undefined behaviour after an empty rebuild of scan)"""
+    import os, select, signal
+    rd, wr = os.pipe()
+    pid = os.fork()
+    if pid == 0:
+        try:
+            os.close(rd)
+            try:
+                r = _impl_lap(case)
+            except BaseException as e:
+                r = {"exc": type(e).__name__, "msg": str(e)[:300]}
+            os.write(wr, json.dumps(r).encode())
+        finally:
+            os._exit(0)
+    os.close(wr)
+    buf = b""
+    ready, _, _ = select.select([rd], [], [], limit)
+    if not ready:
+        os.kill(pid, signal.SIGKILL)
+        os.waitpid(pid, 0)
+        os.close(rd)
+        return {"crash": "implementation hangs (killed after %d s in a forked child)" % limit}
+    while True:
+        chunk = os.read(rd, 1 << 16)
+        if not chunk:
+            break
+        buf += chunk
+    os.close(rd)
+    _, status = os.waitpid(pid, 0)
+    if buf:
+        return json.loads(buf.decode())
+    sig = status & 0x7f
+    return {"crash": "implementation crashed (signal %d)" % sig if sig else "implementation exited %d without a result" % (status >> 8)}
+
+
 def impl(case):
+    if case["fn"] == "lap" and (case.get("f20") or case.get("pat") == "forced-expensive"):
+        return _forked(case)
+    if case["fn"] == "lap":
+        return _impl_lap(case)
+    return _impl_track(case)
+
+
+def _impl_lap(case):
     if case["fn"] == "lap":
         from centrosome.lapjv import lapjv
         tri = case["tri"]
@@ -423,6 +511,10 @@ def impl(case):
                 return {"exc": "InputModified", "msg": "lapjv modified one of its argument arrays"}
         return {"x": [int(t) for t in x], "y": [int(t) for t in y], "u": [_enc(t) for t in u], "v": [_enc(t) for t in v],
                 "same_without_duals": bool(list(x2) == list(x) and list(y2) == list(y))}
+    raise AssertionError("not a lap case")
+
+
+def _impl_track(case):
     # tracker: record every call of the solver made by the tracker, and the matrix it was built from
     from centrosome import neighmovetrack as T
     from centrosome import lapjv as LM
@@ -497,9 +589,10 @@ def _bad(o):
 
 # ------------------------------------------------------------------------------------------ model side
 
-def _lap_arg(case, rt=0, eps=EPS, epsr=EPS):
-    """(rt, eps at :202, eps at :208, passes, n, triples); the code is (AsIs=0, 2^-26, 2^-26)"""
-    return [rt, eps, epsr, case["k"], case["n"], case["tri"]]
+def _lap_arg(case, rt=0, eps=EPS, epsr=EPS, tinf=0):
+    """(rt, eps at :202, eps at :208, passes, n, triples, tinf); the code is (AsIs=0, 2^-26, 2^-26, sentinel inf = sum(c)+1);
+    tinf=1: augment's inf is a true infinity (reference variant, finding F20)"""
+    return [rt, eps, epsr, case["k"], case["n"], case["tri"], tinf]
 
 
 def model(ctx, cases, outs):
@@ -515,6 +608,10 @@ def model(ctx, cases, outs):
 
 
 def compare(case, out, m):
+    if case["fn"] == "lap" and case.get("f20") and (isinstance(m, dict) or m == []):
+        # the faithful model stops at the empty rebuild of scan; what the real code does from there (it reads
+        # p_scan[low] past `up`) is undefined, so there is nothing to compare; check() + attribution decide
+        return None
     if _bad(out):
         return "implementation raised/crashed: %s" % (str(out)[:300],)
     if case["fn"] == "lap":
@@ -686,22 +783,38 @@ _ATTR = {}          # case key -> finding id | None, filled in batch by check()
 
 
 def _key(case, out):
-    return json.dumps([case["n"], case["k"], case["tri"], out["x"], out["y"], out["u"], out["v"]])
+    return json.dumps([case["n"], case["k"], case["tri"], out], sort_keys=True, default=str)
+
+
+def _nores(m):
+    return isinstance(m, dict) or m == []
 
 
 def _attribute_batch(ctx, cases, outs):
-    """cases: failing lap cases (dual-certificate / optimality clauses).  See attribute()."""
+    """cases: failing lap cases (any clause, including crashes).  See attribute()."""
     todo = list(range(len(cases)))
-    ms = ctx.run_model("entry_lapjv", [_lap_arg(c) for c in cases])
-    same = [k for k in todo if not isinstance(ms[k], dict) and ms[k] == [outs[k]["x"], outs[k]["y"], outs[k]["u"], outs[k]["v"]]]
     for k in todo:
         _ATTR[_key(cases[k], outs[k])] = None
+    ms = ctx.run_model("entry_lapjv", [_lap_arg(c) for c in cases])
+    # F20: the faithful (sentinel) model hits the empty rebuild, the same model with a true infinity returns an optimal matching
+    s20 = [k for k in todo if _nores(ms[k])]
+    if s20:
+        rf = ctx.run_model("entry_lapjv", [_lap_arg(cases[k], tinf=1) for k in s20])
+        rf = [None if _nores(m) else tuple(m) for m in rf]
+        ver = _lap_verdicts(ctx, [cases[k] for k in s20], rf)
+        for k, m, v in zip(s20, rf, ver):
+            # the reference result may itself carry F1 / F6 (it is still the as-is reduction transfer / eps band):
+            # what identifies F20 is that it RETURNS a perfect matching where the sentinel model cannot
+            if m is not None and (v is None or "certif" in v):
+                _ATTR[_key(cases[k], outs[k])] = "F20"
+    same = [k for k in todo if not _nores(ms[k]) and not _bad(outs[k])
+            and ms[k] == [outs[k]["x"], outs[k]["y"], outs[k]["u"], outs[k]["v"]]]
     rest = same
     for fid, rt, e1, e2 in (("F1", 1, EPS, EPS), ("F6", 1, 0, EPS), ("F6", 1, 0, 0)):
         if not rest:
             break
-        vs = ctx.run_model("entry_lapjv", [_lap_arg(cases[k], rt, e1, e2) for k in rest])
-        vs = [None if isinstance(m, dict) or m == [] else tuple(m) for m in vs]
+        vs = ctx.run_model("entry_lapjv", [_lap_arg(cases[k], rt, e1, e2, 1) for k in rest])
+        vs = [None if _nores(m) else tuple(m) for m in vs]
         ver = _lap_verdicts(ctx, [cases[k] for k in rest], vs)
         nxt = []
         for k, v in zip(rest, ver):
@@ -723,16 +836,20 @@ def check(ctx, cases, outs):
         res[k] = v
         if v is None and not outs[k]["same_without_duals"]:
             res[k] = "x, y differ between wants_dual_variables=True and False"
-    fl = [k for k in li if res[k] and "certif" in res[k] and _key(cases[k], outs[k]) not in _ATTR]
+    fl = [k for k, c in enumerate(cases) if c["fn"] == "lap" and res[k] and _key(c, outs[k]) not in _ATTR]
     if fl:
         _attribute_batch(ctx, [cases[k] for k in fl], [outs[k] for k in fl])
     # the hypotheses that the Coq development leaves to the per-instance check, evaluated on every case:
-    # (H-total) the repaired model (Fixed, eps 0 at :202) returns - C01_lapjv_fixed_total is NOT proved;
+    # (H-total) the repaired reference model (Fixed, eps 0 at :202, true infinity in augment) returns - "always returns" is NOT proved;
     # (H-2cand) every row lists >= 2 candidates - the premise under which C01_lapjv_fixed_optimal is proved.  Where both
     # hold the theorem says the model's result is optimal: the extracted model is checked against that (a disagreement
     # would be a bug of extraction / harness, reported as a failure of this check).
     if li:
-        fm = ctx.run_model("entry_lapjv", [_lap_arg(cases[k], 1, 0, EPS) for k in li])
+        fm = ctx.run_model("entry_lapjv", [_lap_arg(cases[k], 1, 0, EPS, 1) for k in li])
+        fs = ctx.run_model("entry_lapjv", [_lap_arg(cases[k], 1, 0, EPS, 0) for k in li])
+        for m1, m0 in zip(fm, fs):
+            if _nores(m0) and not _nores(m1):
+                ctx.count("fixed-model-with-SENTINEL-inf:no-result(F20 also hits the row-offset-repaired variant)")
         fm = [None if isinstance(m, dict) or m == [] else tuple(m) for m in fm]
         cert = _certified(ctx, [cases[k] for k in li], fm)
         for k, m, g in zip(li, fm, cert):
@@ -810,11 +927,15 @@ def _variant_verdict(ctx, case, rt, eps, epsr):
 
 
 def attribute(ctx, case, out, clause):
-    """Decided by the model variants, never by a mute.  The implementation must equal the (AsIs, 2^-26, 2^-26)
-    model bit for bit; then F1 iff the (Fixed, 2^-26, 2^-26) model satisfies the property on this input;
-    F6 iff that one does not but the model without the eps tie band, (Fixed, 0, 2^-26) or (Fixed, 0, 0), does;
-    anything else is a new violation."""
-    if case.get("fn") != "lap" or _bad(out) or "certif" not in clause:
+    """Decided by the model variants, never by a mute.
+    F20: the faithful model (AsIs, 2^-26, sentinel inf = sum(c) + 1) hits the empty rebuild of scan in augment (no result)
+         while the same model with a true infinity returns a perfect matching - whatever the real code did from there
+         (crash, garbage, wrong answer) is attributed to F20.  A crash or wrong answer on an input where the sentinel model
+         does NOT hit the empty rebuild is never F20.
+    F1 / F6: the implementation must equal the faithful model bit for bit; F1 iff the (Fixed, 2^-26) model satisfies the
+         property on this input; F6 iff that one does not but (Fixed, 0, 2^-26) or (Fixed, 0, 0) does (Fixed variants are
+         run with the true infinity).  Anything else is a new violation."""
+    if case.get("fn") != "lap":
         return None
     k = _key(case, out)
     if k not in _ATTR:
@@ -904,12 +1025,14 @@ def shrink_candidates(case):
 
 MANIFEST = {
     "level_text": (
-        "Machine-checked proofs (Coq 8.16, 50 theorems, all closed under the global context) about (a) the certificate "
+        "Machine-checked proofs (Coq 8.16, 52 theorems, all closed under the global context) about (a) the certificate "
         "checker cert_ok that is run, extracted, on the implementation's own (x, y, u, v): acceptance implies x is a "
         "minimum-cost perfect matching over listed pairs, y its inverse and (u, v) a dual certificate, for every n and every "
         "sparsity pattern; (b) a line-level executable Gallina model of lapjv.py + _lapjv.pyx with switches rt in {AsIs, Fixed}, "
         "eps in {2^-26, 0} over ext = Fin Z | +inf | -inf | NaN, compared bit for bit with the freshly built implementation; "
-        "the faithful (AsIs, 2^-26) model is refuted by kernel-evaluated witnesses (findings F1, F6); for the repaired "
+        "the faithful (AsIs, 2^-26, sentinel inf) model is refuted by kernel-evaluated witnesses (findings F1, F6, and F20: "
+        "augment's sentinel inf = sum(c) + 1 is too small - the model's rebuild of scan is empty where the real code "
+        "segfaults, C01_inf_sentinel_refuted); for the repaired "
         "(Fixed, eps 0) model, and for (Fixed, 2^-26) on cost grids coarser than 2^-26, it is PROVED for every input with a "
         "perfect matching that whenever the model returns, x and y are mutually inverse permutations over listed pairs "
         "(C01_lapjv_fixed_pm: all four phases - column reduction, reduction transfer, augmenting row reduction incl. -inf "
@@ -918,6 +1041,14 @@ MANIFEST = {
         "C01_aug_dist_inv, price update C01_aug_price_slack, weak duality); (c) the tracker's read-back of the solver result "
         "is injective for every permutation, and the identity clause holds at the level of the assignment problem."),
     "level_note": (
+        "KNOWN FINDING F20 (inside the property's quantifier): memory safety of augment FAILS - `inf = np.sum(c) + 1` "
+        "(_lapjv.pyx:296) is not larger than every reduced cost once prices are negative; a rebuild of scan then finds no "
+        "column and the code reads p_scan[low] past `up` (SIGSEGV / garbage / hang; witness n = 4 with a unique perfect "
+        "matching through three pairs of cost 14 and 0 row-reduction passes, every B >= 14). Attribution: F20 iff the "
+        "faithful sentinel model gives no result on the input AND the same model with a true infinity (lapjv_ref) returns; a "
+        "crash or wrong answer on an input where the sentinel model does return is a VIOLATION. The check runs this class "
+        "(forced expensive pairs, displacement chains, k = 0 emphasised) fork-isolated on every run. In 40 000 such instances "
+        "the sentinel failed 241 times for the as-is model and never for the row-offset-repaired (Fixed) model. "
         "Not proved: that the Fixed model always returns (a rebuild of scan in augment is never empty - needs the adequacy of "
         "inf = sum(c) + 1; with eps 0 in the retry decision it is even false for the model's fuel, C01_lapjv_fixed_eps0_not_total); "
         "optimality for inputs with single-candidate rows (-inf prices): only the price-update core over InvE and the "
